@@ -62,6 +62,27 @@ func genDumpMsg(r *monitor.Rand, depth int) (b []byte, nodes []*dnode) {
 	return b, nodes
 }
 
+// genDeepChain builds a message nested depth levels deep: every level holds a varint, optionally a string, and
+// the next level.
+func genDeepChain(r *monitor.Rand, depth int) (b []byte, nodes []*dnode) {
+	v := &dnode{num: 1, wt: 0, val: uint64(depth)}
+	b = refwire.AppendVarint(refwire.AppendKey(b, 1, 0), v.val)
+	nodes = append(nodes, v)
+	if r.Bool() {
+		s := &dnode{num: 2, wt: 2, payload: []byte("lvl")}
+		b = refwire.AppendLen(refwire.AppendKey(b, 2, 2), s.payload)
+		nodes = append(nodes, s)
+	}
+	if depth > 0 {
+		num := []int{3, 4, 15, 16}[r.Intn(4)]
+		nd := &dnode{num: num, wt: 2, isMsg: true}
+		nd.payload, nd.children = genDeepChain(r, depth-1)
+		b = refwire.AppendLen(refwire.AppendKey(b, num, 2), nd.payload)
+		nodes = append(nodes, nd)
+	}
+	return b, nodes
+}
+
 func randVarint64(r *monitor.Rand) uint64 {
 	switch r.Intn(4) {
 	case 0:
@@ -158,6 +179,12 @@ func runDump(cfg *config, res *monitor.Result) {
 	var stdinFile *os.File
 	for i := 0; i < n/cfg.nshard; i++ {
 		input, nodes := genDumpMsg(r, 2)
+		deep := 0
+		if i%40 == 7 {
+			// a narrow but deep message: nesting levels well beyond what the random trees reach, fully expanded
+			deep = []int{8, 9, 10, 12, 16, 24, 40}[r.Intn(7)]
+			input, nodes = genDeepChain(r, deep)
+		}
 		var msgPaths, ldPaths [][]int
 		collectPaths(nodes, nil, &msgPaths, &ldPaths)
 		expand, strs := map[string]bool{}, map[string]bool{}
@@ -169,7 +196,7 @@ func runDump(cfg *config, res *monitor.Result) {
 					reach = false
 				}
 			}
-			if reach && r.Chance(2, 3) {
+			if reach && (deep > 0 || r.Chance(2, 3)) {
 				expand[pathKey(p)] = true
 			}
 		}
@@ -258,6 +285,9 @@ func runDump(cfg *config, res *monitor.Result) {
 		}
 		wit := map[string]any{"input_hex": monitor.Hex(input), "args": args, "channel": channel, "stderr": clipStr(stderr.String()), "exit": exit}
 		cls := fmt.Sprintf("dump/%s/expand%d/strings%d/valid%v", channel, min(len(expand), 2), min(len(strs), 2), valid)
+		if deep > 0 {
+			cls = fmt.Sprintf("dump/deep-chain/levels%d/valid%v", deep, valid)
+		}
 		classes[cls]++
 		if strings.Contains(stderr.String(), "panic:") || strings.Contains(stderr.String(), "goroutine ") {
 			res.Violate("C20:dump:crash:"+channel, "protodump crashed: "+clipStr(stderr.String()), wit)
